@@ -32,6 +32,14 @@ def run_case(case, eng, res):
     saw = {"ok": 0, "exc": 0}
 
     def body(path):
+        if case.get("second_call"):
+            # an earlier call with another (possibly equal-valued, differently spelled) text must not influence this one
+            s0 = _sym_text(path, n_units, hex_only)
+            try:
+                tools.sign_packet_with_crc_key(s0)
+            except Exception:  # noqa: BLE001
+                pass
+            path.notes["first_text"] = s0
         s = _sym_text(path, n_units, hex_only)
         try:
             r = tools.sign_packet_with_crc_key(s)
@@ -83,7 +91,8 @@ def run_case(case, eng, res):
         m = path.witness()
         text = C.ev_seq(m, s)
         res["witnesses"].append({
-            "replay": {"kind": "call", "func": "device.tools:sign_packet_with_crc_key", "args": [text], "oracle": "C04"},
+            "replay": dict({"kind": "call", "func": "device.tools:sign_packet_with_crc_key", "args": [text], "oracle": "C04"},
+                           **({"before": [C.ev_seq(m, path.notes["first_text"])]} if "first_text" in path.notes else {})),
             "expected": C.conc(m, r) if tag == "ok" else {"exception": type(r).__name__},
         })
         if len(res["samples"]) < 2:
@@ -95,8 +104,10 @@ def run_case(case, eng, res):
 
 def _viol(path, m, s, case, what):
     text = C.ev_seq(m, s)
-    return {"what": what, "case": case,
-            "replay": {"kind": "call", "func": "device.tools:sign_packet_with_crc_key", "args": [text], "oracle": "C04"}}
+    rp = {"kind": "call", "func": "device.tools:sign_packet_with_crc_key", "args": [text], "oracle": "C04"}
+    if "first_text" in path.notes:
+        rp["before"] = [C.ev_seq(m, path.notes["first_text"])]
+    return {"what": what, "case": case, "replay": rp}
 
 
 def crc_model_lemmas(eng):
@@ -149,6 +160,7 @@ def main(tier):
     maxn = 24 if tier == "quick" else 160
     cases = [{"units": 2 * n, "hex_only": True} for n in range(0, maxn + 1)]
     cases += [{"units": k, "hex_only": False} for k in range(1, 7)]
+    cases += [{"units": 2 * n, "hex_only": True, "second_call": True} for n in (1, 2, 4)]
     results = H.run_cases("harness.C04", "run_case", cases, timeout_ms=60000 if tier == "quick" else 600000)
     # witness validation on the unmodified function
     wit = [w for r in results for w in r["witnesses"]]
